@@ -10,13 +10,13 @@ import { TIER, SEED, sliceBySeed } from "./common.mjs";
 import { freshClient } from "./runtime.mjs";
 
 // light: for the monitors whose per-case cost is high (C03: 4 option combinations x 3 entry points); the
-// quick tier then takes every third overlap type and a twenty-fourth of depth 2, the thorough tier everything
+// quick tier then takes every second depth-1 type, every third overlap type and a twenty-fourth of depth 2 (by seed), the thorough tier everything
 export function familyPrograms({ d2slice = 8, light = false } = {}) {
   const progs = [];
   if (light && TIER !== "thorough") d2slice = 24;
-  progs.push(...packPrograms(f1Depth1(), 40, "F1d1"));
+  progs.push(...packPrograms(light && TIER !== "thorough" ? f1Depth1().filter((_, i) => i % 2 === SEED % 2) : f1Depth1(), 40, "F1d1"));
   progs.push(...packInline(light && TIER !== "thorough" ? f1Overlap().filter((_, i) => i % 3 === SEED % 3) : f1Overlap(), 40, "F1x"));
-  progs.push(...f2());
+  progs.push(...(light && TIER !== "thorough" ? f2().filter((_, i) => i % 2 === SEED % 2) : f2()));
   progs.push(...f3());
   progs.push(...packPrograms(f4(), 40, "F4"));
   progs.push(...sliceBySeed(packPrograms(f1Depth2(), 40, "F1d2"), d2slice));
